@@ -43,3 +43,28 @@ def ev(code, q, vals=(0, 0, 0, 0), tid=1, ts=0, data=None):
 def restamp(events):
     """give events strictly increasing timestamps = stream positions."""
     return [e._replace(timestamp=i) for i, e in enumerate(events)]
+
+
+class UnstableRendering(Exception):
+    """str(trace) gave two different texts on two consecutive uses of the same trace object."""
+
+
+def stable_str(t):
+    a = str(t)
+    b = str(t)
+    if a != b:
+        raise UnstableRendering(f'first use {a!r}, second use {b!r}')
+    return a
+
+
+PREFILLED_TP = {1: 10, 2: 20, 3: 30}
+PREFILLED_PN = {10: 'p10', 20: 'p20', 30: 'p30'}
+
+
+def new_traces_parser(prefilled=False):
+    """fresh real TracesParser; prefilled=True hands it a thread map that is already populated at construction (as on the
+    second request of a PyKdebugParser object)."""
+    from pykdebugparser.traces_parser import TracesParser
+    if prefilled:
+        return TracesParser(codes(), dict(PREFILLED_TP), dict(PREFILLED_PN))
+    return TracesParser(codes(), {}, {})
